@@ -540,3 +540,93 @@ func runNoSilentDrop(c *Ctx) {
 		c.Bad("retry-all/none", token.NoPos, "found no function that retries the connections recorded by a broadcast")
 	}
 }
+
+func init() {
+	Register(&Rule{
+		Name:  "R-SIDECAR-KEY",
+		Props: []string{"C06", "C05"},
+		Min:   4,
+		Doc: "one sidecar per output file (F35): the name of a file's resume metadata is a function of its relative path alone - sidecarIdentifier reads no field of the manifest item but RelPath - and every SidecarPath in the receive code takes its key from sidecarIdentifier; " +
+			"named after the item id (path, size, modification time) the metadata of an abandoned transfer survives a later transfer of another version to the same path and is trusted again when the first version returns with its old time stamp",
+		Run: runSidecarKey,
+	})
+}
+
+func runSidecarKey(c *Ctx) {
+	p := c.P
+	si := p.Func("transfer.sidecarIdentifier")
+	if si == nil {
+		c.MissingAnchor("transfer.sidecarIdentifier")
+		return
+	}
+	info := si.Info()
+	var param types.Object
+	if ps := si.Type.Params.List; len(ps) == 1 && len(ps[0].Names) == 1 {
+		param = info.Defs[ps[0].Names[0]]
+	}
+	if param == nil {
+		c.Unknown("key/param", si.Pos(), "sidecarIdentifier does not take exactly one named parameter")
+		return
+	}
+	var other []string
+	usesPath := false
+	ast.Inspect(si.Body, func(n ast.Node) bool {
+		sel, ok := n.(*ast.SelectorExpr)
+		if !ok || ObjOf(info, sel.X) != param {
+			return true
+		}
+		if sel.Sel.Name == "RelPath" {
+			usesPath = true
+		} else {
+			other = append(other, sel.Sel.Name)
+		}
+		return true
+	})
+	// the parameter must not escape whole either (passed to another function that could read the id)
+	whole := false
+	ast.Inspect(si.Body, func(n ast.Node) bool {
+		if call, ok := n.(*ast.CallExpr); ok {
+			for _, a := range call.Args {
+				if ObjOf(info, a) == param {
+					whole = true
+				}
+			}
+		}
+		return true
+	})
+	c.Check(usesPath && len(other) == 0 && !whole, "key/path-only", si.Pos(), "the sidecar name is computed from the relative path alone",
+		fmt.Sprintf("sidecarIdentifier reads %v of the manifest item (or hands the item on): the sidecar's name then changes with the source's size or time stamp, so that several sidecars can exist for one output file; the one left by an abandoned transfer survives a later transfer of another version to the same path and is loaded again (right length, valid header) when the first version returns with its old modification time - its marked chunks are skipped and both sides report success for a mixed file", other))
+	n := 0
+	for _, f := range p.FuncsIn("internal/transfer") {
+		if strings.HasSuffix(p.Fset.Position(f.Pos()).Filename, "_test.go") {
+			continue
+		}
+		fi := f.Info()
+		k := 0
+		InspectNoLits(f.Body, func(m ast.Node) bool {
+			call, ok := m.(*ast.CallExpr)
+			if !ok || len(call.Args) != 3 {
+				return true
+			}
+			if g := p.CalleeInfo(fi, call); g == nil || g.Name != "transfer.SidecarPath" {
+				return true
+			}
+			n++
+			k++
+			good := false
+			for _, d := range resolveExprs(f, call.Args[2], 2) {
+				if c2, ok := ast.Unparen(d).(*ast.CallExpr); ok {
+					if g := p.CalleeInfo(fi, c2); g == si {
+						good = true
+					}
+				}
+			}
+			c.Check(good, fmt.Sprintf("key/site/%s#%d", f.Name, k), call.Pos(), "the metadata path is built from sidecarIdentifier(item)",
+				"a sidecar path is built from "+types.ExprString(call.Args[2])+" instead of sidecarIdentifier(item): two code paths then name the metadata of the same output file differently, and one of them works on a stale copy")
+			return true
+		})
+	}
+	if n == 0 {
+		c.Bad("key/site/none", si.Pos(), "no SidecarPath call found in internal/transfer")
+	}
+}
